@@ -144,3 +144,31 @@ def run(F, R):
     built = {a[1][3] for a in find_aggs(ev, r"async_graphql_value::ConstValue$")}
     R.check(built == {"Enum"} and bool(ev.calls_to(r"EnumType::items$")), "R07.5", "enum_value:Enum-from-items", ev.where(), "builds Value::Enum from items()",
             "enum_value builds %s" % sorted(built))
+
+    R.rule("R07.7", "wire-shape round trip for every other ScalarType impl of the crate (feature-gated scalars included in the thorough tier's wide "
+                    "configuration: chrono, time, jiff, uuid, url, decimal, Duration, …): to_value constructs only Value variants for which parse has an explicit "
+                    "arm, so a serialised value of the scalar is never rejected by its own input coercion on shape alone")
+    seen = {b.defp for b in parses}
+    n7 = 0
+    for b in F.find(r"^async_graphql::types::.*::\{impl#\d+\}::parse$", kind="fn"):
+        if b.defp in seen or not (b.impl_trait or "").endswith("ScalarType") or "::tests::" in b.defp:
+            continue
+        fam = b.defp.rsplit("::", 1)[0]
+        tov = F.get(fam + "::to_value")
+        acc = explicit_arms(b)
+        if tov is None:
+            continue
+        built = {a[1][3] for a in find_aggs(tov, r"async_graphql_value::ConstValue$")}
+        if not built:
+            # to_value delegates (to_string().into(), serde): shape not visible in this body
+            R.undecided_("R07.7", "to_value-shape-not-syntactic:" + (b.impl_self or fam), tov.where(), "to_value builds its Value through a conversion call")
+            n7 += 1
+            continue
+        n7 += 1
+        if not acc:
+            R.undecided_("R07.7", "parse-arms-not-syntactic:" + (b.impl_self or fam), b.where(), "parse does not match on the Value directly")
+            continue
+        bad = built - acc
+        R.check(not bad, "R07.7", "to_value-roundtrip:" + (b.impl_self or fam), tov.where(), "to_value builds %s ⊆ parse arms %s" % (sorted(built), sorted(acc)),
+                "to_value can build %s which parse has no arm for (the scalar's own output is rejected as input)" % sorted(bad))
+    R.floor("R07.7", "other ScalarType impls", n7, 3)
